@@ -139,7 +139,7 @@ PROPS = {
         # the property fixes which batches / blocks are accepted: an input on which the implementation accepts what the
         # proved model rejects (or the other way round) is an input on which the property fails
         "verdict_is_spec": True,
-        "modules": ["C05", "C05Hist", "PinC05", "Codec"],
+        "modules": ["C05", "C05Hist", "PinC05", "Codec", "CodecTie"],
         "streams": [{"name": "apply", "quick": 180, "thorough": 7200}, {"name": "seal", "quick": 90, "thorough": 3200}, {"name": "weight", "quick": 200, "thorough": 9000},
                     # hostile mutations that bear on fees: covenants listed several times whose weights approach or pass a u128
                     {"name": "hostile", "quick": 100, "thorough": 3200},
@@ -156,7 +156,10 @@ PROPS = {
         "modules": ["C06", "C06Hist"],
         "streams": [{"name": "chain", "quick": 120, "thorough": 4000},
                     # blocks next to the TIP activation heights, offered to the node that ran through and to a restarted one
-                    {"name": "activation", "quick": 60, "thorough": 2400}],
+                    {"name": "activation", "quick": 60, "thorough": 2400},
+                    # blocks and restarts next to the epoch boundaries of registered stakes (a stake that has just run out is
+                    # still in the set for one epoch)
+                    {"name": "stake", "quick": 60, "thorough": 2400}],
         "projection": "blocks",
         "oracles": [],
         "assumptions": ["a block's header equality is decided on the real headers; the model computes the scalar header fields itself and is given the Merkle roots of the states involved"],
@@ -174,7 +177,9 @@ PROPS = {
         "streams": [{"name": "chain", "quick": 120, "thorough": 4000},
                     # restarts next to the TIP activation heights (a restarted node must treat the activation block like
                     # the node that ran through: built-in pools, count migration)
-                    {"name": "activation", "quick": 90, "thorough": 2400}],
+                    {"name": "activation", "quick": 90, "thorough": 2400},
+                    # restarts next to the epoch boundaries of registered stakes
+                    {"name": "stake", "quick": 60, "thorough": 2400}],
         "projection": "restore",
         "oracles": [],
         "assumptions": ["the content-addressed store is not modelled: fromBlock is given the tree contents the header's roots denote"],
@@ -183,7 +188,7 @@ PROPS = {
         # the property fixes which batches / blocks are accepted: an input on which the implementation accepts what the
         # proved model rejects (or the other way round) is an input on which the property fails
         "verdict_is_spec": True,
-        "modules": ["C13", "C13Life", "C14Hist", "PinC13", "Codec"],
+        "modules": ["C13", "C13Life", "C14Hist", "PinC13", "Codec", "CodecTie"],
         "streams": [{"name": "stake", "quick": 180, "thorough": 6400}, {"name": "apply", "quick": 90, "thorough": 3200}, {"name": "chain", "quick": 60, "thorough": 2400},
                     {"name": "confirm", "quick": 60, "thorough": 3200},
                     # the decoder of the declared stake: stdcode::deserialize::<StakeDoc> against the model's decodeStakeDoc
@@ -197,7 +202,7 @@ PROPS = {
         # the property fixes which batches / blocks are accepted: an input on which the implementation accepts what the
         # proved model rejects (or the other way round) is an input on which the property fails
         "verdict_is_spec": True,
-        "modules": ["C18", "C18Hist", "PinC18", "Codec"],
+        "modules": ["C18", "C18Hist", "PinC18", "Codec", "CodecTie"],
         "streams": [{"name": "mint", "quick": 360, "thorough": 12000}, {"name": "apply", "quick": 90, "thorough": 3200},
                     # the decoder of the stated difficulty: stdcode::deserialize::<(u32, Vec<u8>)> against the model's decodePow
                     {"name": "stdcode", "quick": 300, "thorough": 6000}],
